@@ -47,7 +47,7 @@ theorem assocBy_some {α β} {p : α → Bool} {l : List (α × β)} {v : β} :
       obtain ⟨k, hk, hp⟩ := ih h
       exact ⟨k, List.mem_cons_of_mem _ hk, hp⟩
 
-theorem rassoc_some {i : Id} {l : List (Content × Id)} {c : Content} :
+theorem rassoc_some {i : Nid} {l : List (Content × Nid)} {c : Content} :
     rassoc i l = some c → (c, i) ∈ l := by
   induction l with
   | nil => simp [rassoc]
@@ -58,7 +58,7 @@ theorem rassoc_some {i : Id} {l : List (Content × Id)} {c : Content} :
     · intro h; simp_all
     · intro h; exact List.mem_cons_of_mem _ (ih h)
 
-theorem rassoc_none {i : Id} {l : List (Content × Id)} :
+theorem rassoc_none {i : Nid} {l : List (Content × Nid)} :
     rassoc i l = none → ∀ c, (c, i) ∉ l := by
   induction l with
   | nil => simp
@@ -113,7 +113,7 @@ theorem inv_init : Inv Mgr.init := by
 
 /-! ## `create_node` -/
 
-theorem validId_iff {s : Mgr} {i : Id} : s.validId i = true ↔ 0 < i ∧ i < s.nextId := by
+theorem validId_iff {s : Mgr} {i : Nid} : s.validId i = true ↔ 0 < i ∧ i < s.nextId := by
   simp [Mgr.validId]
 
 /-- What `createNode` does, as a specification. -/
@@ -148,16 +148,16 @@ theorem createNode_spec (c : Content) (s : Mgr) (hs : Inv s) :
           simp only [List.mem_cons, Prod.mk.injEq] at h1 h2
           rcases h1 with ⟨rfl, rfl⟩ | h1 <;> rcases h2 with ⟨rfl, h2b⟩ | h2
           · rfl
-          · have := (hs.range _ _ h2).2; omega
-          · have := (hs.range _ _ h1).2; omega
+          · exact absurd (hs.range _ _ h2).2 (Nat.lt_irrefl _)
+          · rw [h2b] at h1; exact absurd (hs.range _ _ h1).2 (Nat.lt_irrefl _)
           · exact hs.tinj _ _ _ h1 h2
         · intro c' i h
           simp only [List.mem_cons, Prod.mk.injEq] at h
           rcases h with ⟨rfl, rfl⟩ | h
-          · have := (hs.range _ _ hs.tt).1
-            have h3 := (hs.range _ _ hs.tt).2
-            simp only; omega
-          · have := hs.range _ _ h; simp only; omega
+          · have h3 := (hs.range _ _ hs.tt).2
+            exact ⟨Nat.zero_lt_of_lt h3, Nat.lt_succ_self _⟩
+          · have := hs.range _ _ h
+            exact ⟨this.1, Nat.lt_succ_of_lt this.2⟩
         · intro i h0 h1
           simp only at h1
           by_cases h : i = s.nextId
@@ -181,5 +181,228 @@ theorem createNode_spec (c : Content) (s : Mgr) (hs : Inv s) :
         · exact List.mem_cons_of_mem _ hs.ff
       · intro i hi; cases hi; simp
   next => exact ⟨hs, Ext.refl s, by simp, by simp, rfl, rfl, rfl, rfl, rfl, rfl⟩
+
+/-! ## the other primitives -/
+
+theorem Inv.withInt {s : Mgr} (hs : Inv s) {n : Int} {i : Nid} (h : (intC n, i) ∈ s.formulae) :
+    Inv { s with intConsts := (n, i) :: s.intConsts } := by
+  refine ⟨hs.tfun, hs.tinj, hs.range, hs.full, hs.closed, ?_, hs.reals, hs.strs, hs.syms, hs.tt, hs.ff⟩
+  intro m j hm
+  rcases List.mem_cons.mp hm with h1 | h1
+  · cases h1; exact h
+  · exact hs.ints m j h1
+
+theorem Inv.withReal {s : Mgr} (hs : Inv s) {k : PyNum} {q : Rat} {i : Nid}
+    (hk : k.realValue = .ok q) (h : (realC q, i) ∈ s.formulae) :
+    Inv { s with realConsts := (k, i) :: s.realConsts } := by
+  refine ⟨hs.tfun, hs.tinj, hs.range, hs.full, hs.closed, hs.ints, ?_, hs.strs, hs.syms, hs.tt, hs.ff⟩
+  intro m j hm
+  rcases List.mem_cons.mp hm with h1 | h1
+  · cases h1; exact ⟨q, hk, h⟩
+  · exact hs.reals m j h1
+
+theorem Inv.withStr {s : Mgr} (hs : Inv s) {x : String} {i : Nid} (h : (strC x, i) ∈ s.formulae) :
+    Inv { s with strConsts := (x, i) :: s.strConsts } := by
+  refine ⟨hs.tfun, hs.tinj, hs.range, hs.full, hs.closed, hs.ints, hs.reals, ?_, hs.syms, hs.tt, hs.ff⟩
+  intro m j hm
+  rcases List.mem_cons.mp hm with h1 | h1
+  · cases h1; exact h
+  · exact hs.strs m j h1
+
+theorem Inv.withSym {s : Mgr} (hs : Inv s) {x : String} {t : Ty} {i : Nid} (h : (symC x t, i) ∈ s.formulae) :
+    Inv { s with symbols := (x, i) :: s.symbols } := by
+  refine ⟨hs.tfun, hs.tinj, hs.range, hs.full, hs.closed, hs.ints, hs.reals, hs.strs, ?_, hs.tt, hs.ff⟩
+  intro m j hm
+  rcases List.mem_cons.mp hm with h1 | h1
+  · cases h1; exact ⟨t, h⟩
+  · exact hs.syms m j h1
+
+/-- Python-equal cache keys denote the same rational (so the value-keyed `Real` cache can
+    never return a node of another value). -/
+theorem pyEq_realValue {a b : PyNum} {x y : Rat} (h : a.pyEq b = true)
+    (ha : a.realValue = .ok x) (hb : b.realValue = .ok y) : x = y := by
+  cases a <;> cases b <;> simp [PyNum.realValue, PyNum.pyEq, PyNum.num?] at h ha hb <;>
+    first
+    | (subst ha; subst hb; simpa using h)
+    | skip
+  obtain ⟨rfl, rfl⟩ := h
+  rw [ha] at hb
+  cases hb
+  rfl
+
+/-- Result of a primitive: invariant kept, state extended, and a returned node id (for the
+    node-returning primitives) is the id of the stated content. -/
+structure PrimSpec (s : Mgr) (r : Except Err Nid × Mgr) : Prop where
+  inv : Inv r.2
+  ext : Ext s r.2
+
+theorem intConst_spec (v : PyNum) (s : Mgr) (hs : Inv s) :
+    PrimSpec s (intConst v s) ∧
+    (∀ i, (intConst v s).1 = .ok i → ∃ n, v = .int n ∧ (intC n, i) ∈ (intConst v s).2.formulae) := by
+  unfold intConst
+  cases v <;> simp only [PyNum.intValue]
+  case int n =>
+    split
+    next i hi =>
+      exact ⟨⟨hs, Ext.refl s⟩, fun j hj => by cases hj; exact ⟨n, rfl, hs.ints _ _ (assoc_some hi)⟩⟩
+    next hn =>
+      have hc := createNode_spec (intC n) s hs
+      generalize createNode (intC n) s = r at hc
+      obtain ⟨r1, s'⟩ := r
+      obtain ⟨hi, he, hok, _⟩ := hc
+      cases r1 with
+      | error e => exact ⟨⟨hi, he⟩, by simp⟩
+      | ok i =>
+        have hm := hok i rfl
+        exact ⟨⟨hi.withInt hm, ⟨he.sub, he.next⟩⟩, fun j hj => by cases hj; exact ⟨n, rfl, hm⟩⟩
+  all_goals exact ⟨⟨hs, Ext.refl s⟩, by simp⟩
+
+theorem realConst_spec (v : PyNum) (s : Mgr) (hs : Inv s) :
+    PrimSpec s (realConst v s) ∧
+    (∀ i, (realConst v s).1 = .ok i →
+      ∃ q, v.realValue = .ok q ∧ (realC q, i) ∈ (realConst v s).2.formulae) := by
+  unfold realConst
+  cases hv : v.realValue with
+  | error e => exact ⟨⟨hs, Ext.refl s⟩, by simp⟩
+  | ok q =>
+    simp only
+    split
+    next i hi =>
+      refine ⟨⟨hs, Ext.refl s⟩, fun j hj => ?_⟩
+      cases hj
+      obtain ⟨k, hk, hp⟩ := assocBy_some hi
+      obtain ⟨q', hq', hm⟩ := hs.reals k i hk
+      -- equal keys denote the same rational
+      have : q' = q := pyEq_realValue hp hq' hv
+      exact ⟨q, rfl, this ▸ hm⟩
+    next hn =>
+      have hc := createNode_spec (realC q) s hs
+      generalize createNode (realC q) s = r at hc
+      obtain ⟨r1, s'⟩ := r
+      obtain ⟨hi, he, hok, _⟩ := hc
+      cases r1 with
+      | error e => exact ⟨⟨hi, he⟩, by simp⟩
+      | ok i =>
+        have hm := hok i rfl
+        exact ⟨⟨hi.withReal hv hm, ⟨he.sub, he.next⟩⟩, fun j hj => by cases hj; exact ⟨q, rfl, hm⟩⟩
+
+theorem strConst_spec (x : String) (s : Mgr) (hs : Inv s) :
+    PrimSpec s (strConst x s) ∧
+    (∀ i, (strConst x s).1 = .ok i → (strC x, i) ∈ (strConst x s).2.formulae) := by
+  unfold strConst
+  split
+  next i hi =>
+    exact ⟨⟨hs, Ext.refl s⟩, fun j hj => by cases hj; exact hs.strs _ _ (assoc_some hi)⟩
+  next hn =>
+    have hc := createNode_spec (strC x) s hs
+    generalize createNode (strC x) s = r at hc
+    obtain ⟨r1, s'⟩ := r
+    obtain ⟨hi, he, hok, _⟩ := hc
+    cases r1 with
+    | error e => exact ⟨⟨hi, he⟩, by simp⟩
+    | ok i =>
+      have hm := hok i rfl
+      exact ⟨⟨hi.withStr hm, ⟨he.sub, he.next⟩⟩, fun j hj => by cases hj; exact hm⟩
+
+theorem content?_mem {s : Mgr} {i : Nid} {c : Content} (h : s.content? i = some c) :
+    (c, i) ∈ s.formulae := rassoc_some h
+
+theorem content?_of_mem {s : Mgr} (hs : Inv s) {i : Nid} {c : Content} (h : (c, i) ∈ s.formulae) :
+    s.content? i = some c := by
+  unfold Mgr.content?
+  cases hr : rassoc i s.formulae with
+  | none => exact absurd h (rassoc_none hr c)
+  | some d => rw [hs.tinj _ _ _ (rassoc_some hr) h]
+
+theorem symbolPrim_spec (x : String) (t : Ty) (s : Mgr) (hs : Inv s) :
+    PrimSpec s (symbolPrim x t s) ∧
+    (∀ i, (symbolPrim x t s).1 = .ok i → (symC x t, i) ∈ (symbolPrim x t s).2.formulae) := by
+  unfold symbolPrim
+  split
+  next i hi =>
+    obtain ⟨t', ht'⟩ := hs.syms _ _ (assoc_some hi)
+    rw [content?_of_mem hs ht']
+    simp only [symC]
+    split
+    next heq => exact ⟨⟨hs, Ext.refl s⟩, fun j hj => by cases hj; rw [← heq]; exact ht'⟩
+    next => exact ⟨⟨hs, Ext.refl s⟩, by simp⟩
+  next hn =>
+    split
+    next => exact ⟨⟨hs, Ext.refl s⟩, by simp⟩
+    next =>
+      have hc := createNode_spec (symC x t) s hs
+      generalize createNode (symC x t) s = r at hc
+      obtain ⟨r1, s'⟩ := r
+      obtain ⟨hi, he, hok, _⟩ := hc
+      cases r1 with
+      | error e => exact ⟨⟨hi, he⟩, by simp⟩
+      | ok i =>
+        have hm := hok i rfl
+        exact ⟨⟨hi.withSym hm, ⟨he.sub, he.next⟩⟩, fun j hj => by cases hj; exact hm⟩
+
+theorem Inv.congr {s s' : Mgr} (hs : Inv s) (h1 : s'.formulae = s.formulae) (h2 : s'.nextId = s.nextId)
+    (h3 : s'.intConsts = s.intConsts) (h4 : s'.realConsts = s.realConsts) (h5 : s'.strConsts = s.strConsts)
+    (h6 : s'.symbols = s.symbols) : Inv s' := by
+  refine ⟨?_, ?_, ?_, ?_, ?_, ?_, ?_, ?_, ?_, ?_, ?_⟩ <;> simp only [h1, h2, h3, h4, h5, h6]
+  · exact hs.tfun
+  · exact hs.tinj
+  · exact hs.range
+  · exact hs.full
+  · exact hs.closed
+  · exact hs.ints
+  · exact hs.reals
+  · exact hs.strs
+  · exact hs.syms
+  · exact hs.tt
+  · exact hs.ff
+
+theorem internTyPrim_spec (t : Ty) (s : Mgr) (hs : Inv s) : PrimSpec s (internTyPrim t s) := by
+  unfold internTyPrim
+  split
+  · exact ⟨hs.congr rfl rfl rfl rfl rfl rfl, ⟨fun _ h => h, Nat.le_refl _⟩⟩
+  · exact ⟨hs, Ext.refl s⟩
+
+/-- Every primitive request keeps the invariant and only extends the state. -/
+theorem Prim.exec_spec (p : Prim) (s : Mgr) (hs : Inv s) : PrimSpec s (p.exec s) := by
+  cases p with
+  | create c =>
+    have h := createNode_spec c s hs
+    exact ⟨h.1, h.2.1⟩
+  | intConst v => exact (intConst_spec v s hs).1
+  | realConst v => exact (realConst_spec v s hs).1
+  | strConst x => exact (strConst_spec x s hs).1
+  | symbol n t => exact (symbolPrim_spec n t s hs).1
+  | setFresh n => exact ⟨hs.congr rfl rfl rfl rfl rfl rfl, ⟨fun _ h => h, Nat.le_refl _⟩⟩
+  | internTy t => exact internTyPrim_spec t s hs
+
+/-- Every program keeps the invariant and only extends the state — whatever it returns,
+    also when it fails half-way. -/
+theorem Prog.run_spec {α : Type} (p : Prog α) : ∀ (s : Mgr), Inv s → Inv (p.run s).2 ∧ Ext s (p.run s).2 := by
+  induction p with
+  | pure a => intro s hs; exact ⟨hs, Ext.refl s⟩
+  | fail e => intro s hs; exact ⟨hs, Ext.refl s⟩
+  | read k ih => intro s hs; exact ih s s hs
+  | prim p k ih =>
+    intro s hs
+    have hp := Prim.exec_spec p s hs
+    simp only [Prog.run]
+    generalize p.exec s = r at hp
+    obtain ⟨r1, s'⟩ := r
+    cases r1 with
+    | error e => exact ⟨hp.inv, hp.ext⟩
+    | ok i =>
+      have := ih i s' hp.inv
+      exact ⟨this.1, hp.ext.trans this.2⟩
+
+/-- States reachable from a fresh manager by any finite history of programs (each may be any
+    client of the primitives: the constructors of `Impl/Manager.lean` or anything else). -/
+inductive Reachable : Mgr → Prop
+  | init : Reachable Mgr.init
+  | step {α : Type} (p : Prog α) {s : Mgr} : Reachable s → Reachable (p.run s).2
+
+theorem Reachable.inv {s : Mgr} (h : Reachable s) : Inv s := by
+  induction h with
+  | init => exact inv_init
+  | step p _ ih => exact (Prog.run_spec p _ ih).1
 
 end PySMT.Manager
